@@ -69,6 +69,8 @@ REWRITES = {
     "flat_map_extend": ("re", r"(?s)errors\s*\.extend\(\s*self\s*\.(\w+)\s*\.iter\(\)\s*\.flat_map\((.*?)\),?\s*\);", r"extend_flat_map(&mut errors, &self.\1, \2);", "Vec::extend(iter().flat_map(f)) -> shim with the same std body; `flat_map` applies f to each element in order and concatenates (assumed, R6)"),
     "map_collect": ("re", r"(?s)(\w+)\s*\.into_iter\(\)\s*\.map\((.*)\)\s*\.collect\(\)", r"vec_map_collect(\1, \2)", "v.into_iter().map(f).collect() -> shim with the same std body; `map` applies f to each element in order (assumed, R6)"),
     "as_ref_on_mut_box_reference": ("re", r"(\b\w+)\.as_ref\(\)\.as_ref\(\)", r"Reference::as_ref(&**\1)", "x.as_ref().as_ref() on &mut Box<Reference<T>>: std blanket impl + Box::as_ref (`&**self`) + Reference::as_ref"),
+    "and_then_inline": ("opt_closure", "and_then", ("", ""), "Option::and_then(f) inlined as its std definition `match self { Some(x) => f(x), None => None }` (Verus has no closures that capture &mut)"),
+    "map_inline": ("opt_closure", "map", ("Some(", ")"), "Option::map(f) inlined as its std definition `match self { Some(x) => Some(f(x)), None => None }`"),
     "drop_const_fn": ("re", r"\bconst fn\b", "fn", "const fn that calls non-const shim"),
 }
 
@@ -151,16 +153,35 @@ def apply_rewrite(name, text):
             out = out[:rs] + new + out[k:]
             pos = rs + len(fname) + 1
             count += 1
-        if count == 0:
-            raise LostAnchor(f"rewrite {name}: no `.{method}(` call found")
         return out, {"rewrite": name, "why": why, "sites": log}
     if spec[0] == "re":
         _, pat, repl, why = spec
         sites = [m.group(0) for m in re.finditer(pat, text)]
-        if not sites:
-            raise LostAnchor(f"rewrite {name}: pattern not found")
         out = re.sub(pat, repl, text)
         return out, {"rewrite": name, "why": why, "sites": [{"from": s} for s in sites]}
+    if spec[0] == "opt_closure":
+        # RECV.<method>(|x| BODY)  ->  match RECV { Some(x) => <wrap>(BODY), None => None }   (std definition of Option::and_then / map)
+        _, method, wrap, why = spec
+        pat = re.compile(r"\.\s*" + method + r"\s*\(\s*\|\s*(\w+)\s*\|")
+        m = pat.search(text)
+        if not m:
+            # the construct is not there (any more): nothing to rewrite; Verus decides on the text as it is
+            return text, {"rewrite": name, "why": why, "sites": []}
+        dot = m.start()
+        rs = _postfix_chain_start(text, dot)
+        recv = text[rs:dot].strip()
+        # closing paren of the call
+        op = text.index("(", dot)
+        depth, k = 1, op + 1
+        while depth:
+            if text[k] in "([{":
+                depth += 1
+            elif text[k] in ")]}":
+                depth -= 1
+            k += 1
+        body = text[m.end():k - 1].strip()
+        new = f"match {recv} {{ Some({m.group(1)}) => {wrap[0]}{body}{wrap[1]}, None => None }}"
+        return text[:rs] + new + text[k:], {"rewrite": name, "why": why, "sites": [{"from": text[rs:k][:120], "to": new[:120]}]}
     raise LostAnchor(f"rewrite kind {spec[0]}")
 
 
